@@ -143,11 +143,16 @@ for _k, _mk in (('str', lambda E: ostr(E, 'v')), ('bytes', lambda E: E.bytes('v'
     @contract('serializable.serialize_value', props=['C13'], variant='long-' + _k)
     class _:
         def setup(E, _mk=_mk):
+            # the limit is the module constant MAX_BYTES_LENGTH: proved for EVERY value of it up to the real one (so that a
+            # refutation needs a string of a few bytes, not of a megabyte)
+            lim = E.int('MAX_BYTES_LENGTH', lo=0, hi=2 ** 20)
+            E.ip.repo.module('serializable').globals['MAX_BYTES_LENGTH'] = lim
+            E.ghost('limit', lim)
             return dict(stream=new_stream(E), value=_mk(E))
         hooks = STR_HOOKS
         # "refused with an error": any exception class (serialize_string's own error path raises NameError while formatting
         # its message - still a refusal, not a silent mis-encoding)
-        raises = {'refused-iff-longer-than-1MiB': ('Exception', (lambda value: encoded_len(value) > 2 ** 20))}
+        raises = {'refused-iff-longer-than-1MiB': ('Exception', (lambda value, ghost: encoded_len(value) > ghost.limit))}
         may_raise = []
 
 
